@@ -335,7 +335,10 @@ class Normalize(Family):
             ab = [(rng.choice([2.0, 3.0, 0.5, 4.0, 1.5, 1.0]), rng.choice([-1.0, 0.25, 2.0, 0.0, -3.5])) for _ in range(pd)]
             params = [T.corner_params(s, (0,) * pd), T.corner_params(s, (1,) * pd)] + [T.random_params(rng, s)[0] for _ in range(3)]
             sample = rng.choice([2, 3, 5, 8, 30]) if kind == "curve" else (rng.choice([2, 3, 5]) if kind == "surface" else rng.choice([2, 3]))
-            out.append({"shape": s, "ab": ab, "params": params, "sample": sample})
+            samples = None
+            if pd > 1 and rng.random() < 0.5:
+                samples = [rng.choice([2, 3, 4]) for _ in range(pd)]     # one setter per direction
+            out.append({"shape": s, "ab": ab, "params": params, "sample": sample, "samples": samples})
         return out
 
     def _scaled(self, c):
@@ -351,7 +354,7 @@ class Normalize(Family):
             o = T.build(s2, normalize_kv=normalize)
             kvs = T.obj_kvs(o)
             if normalize and kvs != [list(U) for U in s["kv"]]:
-                return {"skip": 1}
+                return {"badkv": kvs}
             prm = c["params"] if normalize else [[a * t + b for t, (a, b) in zip(p, c["ab"])] for p in c["params"]]
             r = {"pts": [T.eval_single(o, p) for p in prm], "kv": kvs}
             if s["kind"] == "curve":
@@ -363,7 +366,11 @@ class Normalize(Family):
 
         def g():
             o = T.build(s2, normalize_kv=normalize)
-            o.sample_size = c["sample"]
+            if c.get("samples"):
+                for suf, k in zip("uvw", c["samples"]):
+                    setattr(o, "sample_size_" + suf, k)
+            else:
+                o.sample_size = c["sample"]
             ss = o.sample_size
             return {"evalpts": [list(p) for p in o.evalpts], "sample_size": [int(x) for x in ss] if isinstance(ss, (list, tuple)) else [int(ss)]}
         return {"point": r, "grid": call(g)}
@@ -373,7 +380,7 @@ class Normalize(Family):
 
     def coq(self, c, out):
         a, b = out["norm"]["point"], out["raw"]["point"]
-        if "ok" not in a or "skip" in a["ok"] or "ok" not in b:
+        if "ok" not in a or "badkv" in a["ok"] or "ok" not in b:
             return None
         s, s2 = c["shape"], self._scaled(c)
         pts_raw = "[" + "; ".join(T.coq_point(s2, [x * t + y for t, (x, y) in zip(p, c["ab"])], name="r") for p in c["params"]) + "]"
@@ -385,8 +392,9 @@ class Normalize(Family):
         e = "andb (closeLL %s %s) (closeLL %s %s)" % (pts_raw, G.sll(b["ok"]["pts"]), pts_norm, G.sll(a["ok"]["pts"]))
         g = out["raw"]["grid"]
         if "ok" in g:
-            e = "andb (%s) (eqLnat (map (fun _ => match delta_of_sample_size Qops %s with Ok d => sample_size_of_delta Qops 64 d | _ => 0%%nat end) (seq 0 %d)) %s)" % (
-                e, G.n(c["sample"]), len(g["ok"]["sample_size"]), G.nl(g["ok"]["sample_size"]))
+            req = c.get("samples") or [c["sample"]] * len(g["ok"]["sample_size"])
+            e = "andb (%s) (eqLnat (map (fun v => match delta_of_sample_size Qops v with Ok d => sample_size_of_delta Qops 64 d | _ => 0%%nat end) %s) %s)" % (
+                e, G.nl(req), G.nl(g["ok"]["sample_size"]))
         return "(" + T.coq_shape_lets(s2, name="r") + norm_lets + e + ")"
 
     def oracle(self, c, out):
@@ -394,8 +402,9 @@ class Normalize(Family):
         s = c["shape"]
         if "ok" not in a["point"]:
             return "normalize: evaluation with normalize_kv=True failed on a valid shape: %s" % (a["point"],)
-        if "skip" in a["point"]["ok"]:
-            return None
+        if "badkv" in a["point"]["ok"]:
+            return "normalize-kv: normalize_kv=True turns the knot vectors %s into %s, the affine normalisation to [0,1] is %s" % (
+                self._scaled(c)["kv"], a["point"]["ok"]["badkv"], s["kv"])
         if "ok" not in b["point"]:
             return "normalize-fails: normalize_kv=False makes a valid evaluation fail (knot range %s): %s" % (c["ab"], b["point"])
         if not _same(a["point"]["ok"]["pts"], b["point"]["ok"]["pts"]):
@@ -417,20 +426,20 @@ class Normalize(Family):
                     if not (_same(y[0][0], exp[0][0], 1e-8) and _same(y[0][1], exp[0][1], 1e-8) and _same(y[1][0], exp[1][0], 1e-8)):
                         return "normalize-ders: first partial derivatives do not scale by 1/a between normalize_kv=True and False"
         if "ok" not in a["grid"]:
-            return "normalize: evalpts with sample_size=%d failed with normalize_kv=True: %s" % (c["sample"], a["grid"])
+            return "normalize: evalpts with sample_size=%s failed with normalize_kv=True: %s" % (c.get("samples") or c["sample"], a["grid"])
         if "ok" not in b["grid"]:
-            return "normalize-grid-fails: sample_size=%d is accepted with normalize_kv=True but fails with normalize_kv=False on knot range %s: %s" % (
-                c["sample"], c["ab"], b["grid"])
+            return "normalize-grid-fails: sample_size=%s is accepted with normalize_kv=True but fails with normalize_kv=False on knot range %s: %s" % (
+                c.get("samples") or c["sample"], c["ab"], b["grid"])
         ga, gb = a["grid"]["ok"], b["grid"]["ok"]
         if ga["sample_size"] != gb["sample_size"] or len(ga["evalpts"]) != len(gb["evalpts"]):
-            return "normalize-grid-size: sample_size=%d gives %s (%d points) with normalize_kv=True and %s (%d points) with False on knot range %s" % (
-                c["sample"], ga["sample_size"], len(ga["evalpts"]), gb["sample_size"], len(gb["evalpts"]), c["ab"])
+            return "normalize-grid-size: sample_size=%s gives %s (%d points) with normalize_kv=True and %s (%d points) with False on knot range %s" % (
+                c.get("samples") or c["sample"], ga["sample_size"], len(ga["evalpts"]), gb["sample_size"], len(gb["evalpts"]), c["ab"])
         if not _same(ga["evalpts"], gb["evalpts"]):
             return "normalize-grid: evalpts differ between normalize_kv=True and False"
         return None
 
     def nontrivial(self, c, out):
-        return all("ok" in out[k]["point"] and "skip" not in out[k]["point"]["ok"] for k in ("norm", "raw"))
+        return all("ok" in out[k]["point"] and "badkv" not in out[k]["point"]["ok"] for k in ("norm", "raw"))
 
     def stratum(self, c, out):
         s = c["shape"]
@@ -456,8 +465,8 @@ class Procs(Family):
             else:
                 kind = rng.choice(["surface", "surface", "volume"])
                 s = T.random_shape(rng, kind=kind, kvkinds=["uniform", "mult"], maxdeg=2)
-                out.append({"what": "voxelize", "shapes": [s], "sample": rng.choice([3, 4, 5]) if kind == "surface" else rng.choice([2, 3]),
-                            "grid": [rng.choice([2, 3, 4]) for _ in range(3)], "cubes": rng.random() < 0.3, "modelk": rng.choice([2, 4, 8])})
+                out.append({"what": "voxelize", "shapes": [s], "sample": rng.choice([3, 4]) if kind == "surface" else 2,
+                            "grid": rng.choice([[2, 2, 3], [3, 2, 2], [3, 3, 3], [2, 3, 4], [2, 2, 2], [4, 2, 3]]), "cubes": rng.random() < 0.3, "modelk": rng.choice([2, 4, 8])})
         return out
 
     def _vox(self, c, k):
@@ -488,7 +497,7 @@ class Procs(Family):
             return None
         if c["what"] == "voxelize":
             o1 = out["1"]["ok"]
-            if len(o1["grid"]) * len(o1["pts"]) > 6000:
+            if len(o1["grid"]) * len(o1["pts"]) > 500:
                 return None
             k = c["modelk"]
             return "(let grid := %s in let pts := %s in andb (eqLnat (find_inouts Qops 1 %s grid pts) %s) (eqLnat (find_inouts Qops %s %s grid pts) %s))" % (
